@@ -38,7 +38,9 @@ type bpfProg struct {
 }
 
 func specOf(c bpfCfg) packets.PacketFilterSpec {
-	a := func(b [4]int) netip.Addr { return netip.AddrFrom4([4]byte{byte(b[0]), byte(b[1]), byte(b[2]), byte(b[3])}) }
+	a := func(b [4]int) netip.Addr {
+		return netip.AddrFrom4([4]byte{byte(b[0]), byte(b[1]), byte(b[2]), byte(b[3])})
+	}
 	return packets.PacketFilterSpec{FilterType: packets.PacketFilterType(c.Type), FilterConfig: packets.FilterConfig{
 		Src: netip.AddrPortFrom(a(c.Src), uint16(c.SPort)), Dst: netip.AddrPortFrom(a(c.Dst), uint16(c.DPort))}}
 }
@@ -103,9 +105,9 @@ func TestBpfCheck(t *testing.T) {
 	defer f.Close()
 	dec := json.NewDecoder(f)
 	res := struct {
-		Checked   int       `json:"checked"`
-		Disagree  []bpfCase `json:"disagree"`
-		Accepted  int       `json:"accepted"`
+		Checked  int       `json:"checked"`
+		Disagree []bpfCase `json:"disagree"`
+		Accepted int       `json:"accepted"`
 	}{Disagree: []bpfCase{}}
 	vms := map[int]*bpf.VM{}
 	for dec.More() {
